@@ -105,7 +105,7 @@ class HierarchyLeg(Leg):
     case_type = "bool"
     rule = ("random class hierarchies (3-6 vertex classes and 2-4 edge classes over Vertex / DirectedEdge / UnDirectedEdge, single "
             "and multiple inheritance, diamonds), a random subset configured with distinguishable type keywords, title formats and "
-            "arrow sides; small graphs over instances of all classes; every declaration header and every relation line must carry "
+            "arrow sides (title fields: plain attributes, the uid property, a property of the class; 2 in 5 hierarchies reuse class names); small graphs over instances of all classes; every declaration header and every relation line must carry "
             "the options of the first configured class in type(x).__mro__; non-trivial = some class has two bases")
     quick_n = 120
     thorough_n = 3000
@@ -127,29 +127,37 @@ class HierarchyLeg(Leg):
             econf = [rng.random() < 0.5 for _ in range(ne)]
             verts = [rng.randrange(nv) for _ in range(rng.randint(2, 6))]
             edges = [[rng.randrange(ne), rng.randrange(len(verts)), rng.randrange(len(verts))] for _ in range(rng.randint(1, 6))]
-            yield {"vbases": vbases, "ebases": ebases, "vconf": vconf, "econf": econf, "verts": verts, "edges": edges}
+            # samename: distinct classes that share one __name__ (two modules each with their own `Node`; a class factory)
+            yield {"vbases": vbases, "ebases": ebases, "vconf": vconf, "econf": econf, "verts": verts, "edges": edges,
+                   "samename": rng.random() < 0.4}
 
     @staticmethod
-    def _classes(bases, roots, prefix):
+    def _classes(bases, roots, prefix, samename=False):
         out = []
         for i, bs in enumerate(bases):
+            name = f"{prefix}{i % 2 if samename else i}"
+            # every generated class has a computed field of its own (a property), usable in title formats like `uid`
+            ns = {"label": property(lambda self: f"L{self.nm}")} if prefix == "V" else {}
             try:
-                out.append(type(f"{prefix}{i}", tuple(out[b] if b >= 0 else roots[b] for b in bs), {}))
+                out.append(type(name, tuple(out[b] if b >= 0 else roots[b] for b in bs), dict(ns)))
             except TypeError:           # no consistent method resolution order for these bases: fall back to the first one
                 b = bs[0]
-                out.append(type(f"{prefix}{i}", (out[b] if b >= 0 else roots[b],), {}))
+                out.append(type(name, (out[b] if b >= 0 else roots[b],), dict(ns)))
         return out
 
     def observe(self, case):
         from edgegraph.structure import Vertex, Universe, DirectedEdge, UnDirectedEdge
         from edgegraph.output import plantuml
-        vcls = self._classes(case["vbases"], {-1: Vertex}, "V")
-        ecls = self._classes(case["ebases"], {-1: DirectedEdge, -2: UnDirectedEdge}, "E")
+        vcls = self._classes(case["vbases"], {-1: Vertex}, "V", case.get("samename"))
+        ecls = self._classes(case["ebases"], {-1: DirectedEdge, -2: UnDirectedEdge}, "E", case.get("samename"))
         opts = {"skinparams": {}, Vertex: {"type": "object", "show_attrs": ["^nm$"], "title_format": "root_{nm}"},
                 DirectedEdge: {"v1side": "", "v2side": ">"}, UnDirectedEdge: {"v1side": "", "v2side": ""}}
         for i, c in enumerate(vcls):
             if case["vconf"][i]:
-                opts[c] = {"type": self.TYPES[1 + i % 7], "show_attrs": ["^nm$"], "title_format": f"c{i}_{{nm}}"}
+                # title fields: a plain attribute, the uid (a property of BaseObject), a property of the class itself
+                field = ["{nm}", "{nm}_{uid}", "{label}"][i % 3] if "samename" in case else "{nm}"
+                opts[c] = {"type": self.TYPES[1 + i % 7], "show_attrs": ["^(nm|uid|label)$"] if "samename" in case else ["^nm$"],
+                           "title_format": f"c{i}_{field}"}
         for i, c in enumerate(ecls):
             if case["econf"][i]:
                 opts[c] = {"v1side": self.SIDES[2 + i % 4][0], "v2side": self.SIDES[2 + i % 4][1]}
@@ -165,7 +173,7 @@ class HierarchyLeg(Leg):
             return next(opts[c] for c in type(v).__mro__ if c in opts)
 
         def title(v):
-            return vopt(v)["title_format"].format(nm=v.nm)
+            return vopt(v)["title_format"].format(nm=v.nm, uid=v.uid, label=getattr(v, "label", None))
         exp_decl = [[vopt(v)["type"], title(v), type(v).__name__] for v in vs]
         exp_rel = sorted(f"{title(e.v1)} {o['v1side']}--{o['v2side']} {title(e.v2)}"
                          for e in es for o in [next(opts[c] for c in type(e).__mro__ if c in opts)])
